@@ -26,6 +26,8 @@ def pLEvent : P LEvent := do
   else if t = "C" then do let cs ← many pCall; let f ← pOrd; pure (.calls cs f)
   else if t = "K" then do let p ← nat; let i ← nat; pure (.ack p i)
   else if t = "X" then pure .deposed
+  else if t = "FT" then pure .heartbeatTimeout
+  else if t = "FQ" then pure .idle
   else if t = "H" then do
     let p ← nat; let a ← nat
     pure (.hb p (match a with | 0 => .ok | 1 => .deny | _ => .fail))
@@ -123,22 +125,25 @@ def lp (st : List LS.LStep) : List LS.LStep := LS.leaderPart st false
 
 def lmonFor : String → List LMonitor
   | "C05" => [fun st => at2 "commit" (LS.commitRule st 0)]
-  | "C07" => [fun st => at2 "membership" (LS.oneChangeAtATime st false 0), fun st => at2 "membership" (LS.stalePrevRefused st 0)]
+  | "C07" => [fun st => at2 "membership" (LS.oneChangeAtATime st false 0), fun st => at2 "membership" (LS.stalePrevRefused st 0),
+              fun st => at2 "follower" (LS.followerRules st 0)]
+  | "C14" => [fun st => at2 "follower" (LS.followerRules st 0)]
   | "C08" => [fun st => at2 "client" (LS.ackExact (lp st) 0 (lp st)), fun st => LS.ackOrder (lp st), fun st => LS.fsmInOrder (lp st)]
   | "C02" => [fun st => LS.fsmInOrder (lp st), fun st => at2 "client" (LS.ackExact (lp st) 0 (lp st))]
   | "C03" => [fun st => at2 "commit" (LS.commitRule st 0), fun st => at2 "membership" (LS.oneChangeAtATime st false 0),
               fun st => at2 "leader" (LS.requestsSpeakForLedTerm st none 0)]
   | "C09" => [LS.verifyFresh]
-  | "C17" => [LS.nothingStranded]
-  | "C18" => [LS.notifyFaithful]
+  | "C17" => [LS.nothingStranded, fun st => at2 "follower" (LS.followerRules st 0)]
+  | "C18" => [LS.notifyFaithful, fun st => at2 "follower" (LS.followerRules st 0)]
   | "C04" => [fun st => at2 "leader" (LS.requestsFromLog st 0), fun st => at2 "leader" (LS.requestsSpeakForLedTerm st none 0)]
-  | "C12" => [fun st => at2 "leader" (LS.requestsFromLog st 0), fun st => at2 "leader" (LS.requestsToCurrentAddress st 0)]
+  | "C12" => [fun st => at2 "leader" (LS.requestsFromLog st 0), fun st => at2 "leader" (LS.requestsToCurrentAddress st 0),
+              fun st => at2 "follower" (LS.followerRules st 0)]
   | "C01" => [fun st => at2 "membership" (LS.oneChangeAtATime st false 0), fun st => at2 "leader" (LS.requestsSpeakForLedTerm st none 0)]
   | _ => [fun st => at2 "commit" (LS.commitRule st 0), fun st => at2 "membership" (LS.oneChangeAtATime st false 0),
           fun st => at2 "membership" (LS.stalePrevRefused st 0),
           fun st => at2 "client" (LS.ackExact (lp st) 0 (lp st)), fun st => LS.ackOrder (lp st), fun st => LS.fsmInOrder (lp st), LS.verifyFresh, LS.nothingStranded,
           LS.notifyFaithful, fun st => at2 "leader" (LS.requestsFromLog st 0), fun st => at2 "leader" (LS.requestsSpeakForLedTerm st none 0),
-          fun st => at2 "leader" (LS.requestsToCurrentAddress st 0)]
+          fun st => at2 "leader" (LS.requestsToCurrentAddress st 0), fun st => at2 "follower" (LS.followerRules st 0)]
 
 def lfirstSome (st : List LS.LStep) : List LMonitor → Option String
   | [] => none
